@@ -23,6 +23,7 @@ func runC03(c *Ctx) {
 	r03_5(c, "R03.5")
 	r03_6(c, "R03.6")
 	r03_7(c, "R03.7")
+	r03_8(c, "R03.8")
 }
 
 // mainRecv returns the main-loop RecvMsg call of the receive loop (the one not
@@ -381,6 +382,8 @@ func r03_3(c *Ctx, rule string) {
 			}
 		}
 	}
+	// the record of the last child is updated in the live slice
+	c.ObNoStaleElementStores(rule, fn, 1, "validator record (last child of an open directory)")
 	// dir != open dir
 	var dcmp *ssa.BinOp
 	eng.Instrs(fn, func(in ssa.Instruction) {
@@ -870,5 +873,55 @@ func r03_7(c *Ctx, rule string) {
 		arg := call.Common().Args[0]
 		ok := c.DerivesFrom(arg, func(v ssa.Value) bool { return isFieldLoad(v, "fsutil.DiskWriter.dest") }, 5)
 		c.R.Check(ok, rule, c.siteName(call)+"/on-dest", c.pos(call), "Lstat of a path below DiskWriter.dest", "Lstat is not applied to a path joined below DiskWriter.dest")
+	}
+}
+
+// R03.8: what the validators accept as a parent directory is materialised as
+// a real directory. The validators classify an entry by fi.IsDir() alone; the
+// writer must give that test priority over every other mode bit, or a stat
+// with contradictory type bits (directory + symlink, directory + device)
+// becomes a parent the validator trusts and a symlink on disk.
+func r03_8(c *Ctx, rule string) {
+	c.R.Rule(rule, "type agreement between validator and writer: in DiskWriter.HandleChange no non-directory creation (symlink, hard link, file, device) and no content request is reachable when fi.IsDir() holds, and Mkdir is; both validators decide 'directory' by the same fi.IsDir()")
+	hc := c.Fn(rule, "fsutil.(*DiskWriter).HandleChange")
+	if hc == nil {
+		return
+	}
+	x := c.explorer(hc)
+	as := map[string]bool{}
+	for _, call := range c.P.CallsTo(hc, "(io/fs.FileInfo).IsDir") {
+		if cl, ok := call.(*ssa.Call); ok && eng.Strip(cl.Call.Value) == ssa.Value(hc.Params[3]) {
+			as[x.KeyAtEntry(cl)] = true
+		}
+	}
+	base := c.name(hc)
+	if len(as) == 0 {
+		c.R.Fail(rule, base+"/dir-test", c.P.Pos(hc.Pos()), "HandleChange never asks fi.IsDir()")
+		return
+	}
+	nonDir := c.callPred("os.Symlink", "os.Link", "os.OpenFile", "fsutil.handleTarTypeBlockCharFifo", "fsutil.(*DiskWriter).requestAsyncFileData")
+	hit, und := c.ReachableUnder(hc, as, nil, nonDir)
+	switch {
+	case und:
+		c.R.Undecided(rule, base+"/directory-has-priority", c.P.Pos(hc.Pos()), "state limit")
+	case hit != nil:
+		c.R.Fail(rule, base+"/directory-has-priority", c.pos(hit.Instr), "an entry whose mode says 'directory' can be created as "+c.calleeOf(hit.Instr)+": the validators accept it as a parent directory (they test fi.IsDir() only), so its children are written through whatever was created instead - with a symlink, outside the destination; path "+eng.BlockTrace(hc, hit.Trace))
+	default:
+		c.R.OK(rule, base+"/directory-has-priority", c.P.Pos(hc.Pos()), "an entry with the directory bit is never created as anything but a directory")
+	}
+	c.ObReachable(rule, base+"/directory-created", hc, as, c.callPred("os.Mkdir"), "os.Mkdir", "the entry is a directory")
+	// the validators use the same predicate
+	for _, n := range []string{"fsutil.(*Validator).HandleChange", "fsutil.(*Hardlinks).HandleChange"} {
+		v := c.Fn(rule, n)
+		if v == nil {
+			continue
+		}
+		k := 0
+		for _, call := range c.P.CallsTo(v, "(io/fs.FileInfo).IsDir") {
+			if _, isP := eng.Strip(call.Common().Value).(*ssa.Parameter); isP {
+				k++
+			}
+		}
+		c.R.Check(k >= 1, rule, n+"/same-predicate", c.P.Pos(v.Pos()), "classifies directories with fi.IsDir()", n+" no longer classifies directories with fi.IsDir(): validator and writer may disagree on what is a directory")
 	}
 }
